@@ -8,6 +8,9 @@ import MidoProofs.TableTie
 #print axioms Mido.C07_roundtrip
 #print axioms Mido.C07_roundtrip_normal
 #print axioms Mido.C07_saved_fixed_point
+#print axioms Mido.C07_fixed_point
+#print axioms Mido.readFile_sound
+#print axioms Mido.decode_sound
 #print axioms Mido.readEvents_write
 #print axioms Mido.readTrack_write
 #print axioms Mido.tie_meta_specs
